@@ -196,11 +196,8 @@ impl<'a> GeneratorState<'a> {
                         self.carry_flag_ok = false;
                         Ok(ExprType::Y)
                     }
-                    ExprType::Y => {
-                        self.flags = FlagsState::Y;
-                        self.carry_flag_ok = false;
-                        Ok(ExprType::Y)
-                    }
+                    // Y = Y emits nothing: the flags are what they were
+                    ExprType::Y => Ok(ExprType::Y),
                     ExprType::Nothing => unreachable!(),
                     ExprType::Label(_) => unreachable!(),
                 }
